@@ -155,6 +155,7 @@ type Hist struct {
 	Absent map[types.TmAddress]int // remaining absence run
 	Panics []string
 	Ops    int
+	FFH    map[uint64]bool // heights at which frozen funds may exist
 	DebugHook func(*GenTx)
 }
 
@@ -177,7 +178,7 @@ func NewHist(o HistOpts, sink *Sink) (*Hist, error) {
 	if err != nil {
 		return nil, err
 	}
-	h := &Hist{O: o, W: w, N: n, S: sink, View: Dump{}, Univ: map[types.Address]bool{}, Stats: map[string]int{}, Absent: map[types.TmAddress]int{}}
+	h := &Hist{O: o, W: w, N: n, S: sink, View: Dump{}, Univ: map[types.Address]bool{}, Stats: map[string]int{}, Absent: map[types.TmAddress]int{}, FFH: map[uint64]bool{}}
 	h.G = &Gen{W: w, N: n, Weights: o.Weights, MalformedPct: o.Malformed, CustomGasPct: o.CustomGas, MultisigPct: o.Multisig}
 	if h.G.Weights == nil {
 		h.G.Weights = DefaultWeights()
@@ -225,6 +226,9 @@ func (h *Hist) sendFull(op string) {
 		return
 	}
 	h.N.nextOrder = uint32(st.NextOrderID)
+	for _, f := range st.FrozenFunds {
+		h.FFH[f.Height] = true
+	}
 	d := DumpState(&st)
 	h.appExtras(d)
 	lines := []string{op}
@@ -277,6 +281,42 @@ func (h *Hist) liveProjection() Dump {
 	}
 	d["app slashed"] = cs.App().GetTotalSlashed().String()
 	d["app rewards"] = h.N.App.GetCurrentRewards().String()
+	// candidates and stakes (slot order), waitlists of the universe, frozen funds at tracked heights
+	for _, c := range cs.Candidates().GetCandidates() {
+		d[fmt.Sprintf("cand %d", c.ID)] = fmt.Sprintf("%s %s %s %s %d %d %d %d %s", hexs(c.PubKey[:]), hexs(c.OwnerAddress[:]), hexs(c.RewardAddress[:]), hexs(c.ControlAddress[:]), c.Commission, c.Status, c.JailedUntil, c.LastEditCommissionHeight, c.GetTotalBipStake())
+		for i, st := range cs.Candidates().GetStakes(c.PubKey) {
+			d[fmt.Sprintf("st %d %s %d", c.ID, hexs(st.Owner[:]), st.Coin)] = fmt.Sprintf("%d %s %s", i, st.Value, st.BipValue)
+		}
+	}
+	for a := range h.Univ {
+		if m := cs.WaitList().GetByAddress(a); m != nil {
+			for _, it := range m.List {
+				k := fmt.Sprintf("wl %d %s %d", it.CandidateId, hexs(a[:]), it.Coin)
+				if old, ok := d[k]; ok {
+					d[k] = old + "+" + it.Value.String()
+				} else {
+					d[k] = it.Value.String()
+				}
+			}
+		}
+	}
+	h.FFH[h.N.Height+types.GetUnbondPeriod()] = true
+	h.FFH[h.N.Height+types.GetMovePeriod()] = true
+	for fh := range h.FFH {
+		if fh < h.N.Height {
+			delete(h.FFH, fh)
+			continue
+		}
+		if m := cs.FrozenFunds().GetFrozenFunds(fh); m != nil {
+			for i, f := range m.List {
+				ck := "-"
+				if f.CandidateKey != nil {
+					ck = hexs(f.CandidateKey[:])
+				}
+				d[fmt.Sprintf("ff %d %d", fh, i)] = fmt.Sprintf("%s %s %d %d %s %d", hexs(f.Address[:]), ck, f.CandidateID, f.Coin, f.Value, f.GetMoveToCandidateID())
+			}
+		}
+	}
 	// pools (reserves) through the read-only getter used by the API
 	idsAll := append([]types.CoinID{0}, ids...)
 	for i := 0; i < len(idsAll); i++ {
@@ -301,10 +341,10 @@ func (h *Hist) sendLive(op string) {
 		}
 	}
 	for k := range h.View {
-		if strings.HasPrefix(k, "b ") || strings.HasPrefix(k, "n ") || strings.HasPrefix(k, "c ") || strings.HasPrefix(k, "p ") {
+		if liveKey(k) {
 			if _, ok := d[k]; !ok {
 				// only addresses in the universe are tracked live
-				if strings.HasPrefix(k, "c ") || strings.HasPrefix(k, "p ") || h.inUniv(k) {
+				if !(strings.HasPrefix(k, "b ") || strings.HasPrefix(k, "n ")) || h.inUniv(k) {
 					out = append(out, "-"+k)
 					delete(h.View, k)
 				}
@@ -315,6 +355,16 @@ func (h *Hist) sendLive(op string) {
 	lines := append([]string{op}, out...)
 	lines = append(lines, ".")
 	h.S.Op(lines...)
+}
+
+// liveKey: dump keys maintained by the live projection.
+func liveKey(k string) bool {
+	for _, p := range []string{"b ", "n ", "c ", "p ", "cand ", "st ", "wl ", "ff "} {
+		if strings.HasPrefix(k, p) {
+			return true
+		}
+	}
+	return false
 }
 
 func (h *Hist) inUniv(key string) bool {
@@ -445,6 +495,11 @@ func (h *Hist) Block() bool {
 		h.Stats[fmt.Sprintf("tx.%02d.%s", g.Type, okstr(r.Code))]++
 		if r.Code != 0 {
 			h.Stats[fmt.Sprintf("err.%d", r.Code)]++
+		}
+		if r.Code == 0 && g.Type == tx.TypeLock {
+			if ld, ok := g.Data.(tx.LockData); ok {
+				h.FFH[uint64(ld.DueBlock)] = true
+			}
 		}
 		if r.Code == 0 && g.Type == tx.TypeCreateMultisig {
 			h.Univ[accounts.CreateMultisigAddress(g.Sender, g.Nonce)] = true
